@@ -26,6 +26,7 @@ META = {
                      "random.random is U[0,1), random.randrange(n) is uniform on 0..n-1"],
     "assumptions": ["float corner cases of log(0) are out of scope"],
 }
+META["explanation"] += ' Also COPY and the other methods that assign part of (arrival count, W, next accepted arrival).'
 MIN_INSTANCES = {"FORMULA": 4, "DRAW": 1, "SAME": 1}
 
 CLS = "UniformReservoirStorage"
